@@ -4,10 +4,54 @@ import (
 	"encoding/json"
 	"fmt"
 	"os"
+	"runtime/debug"
+
+	"github.com/NVIDIA/KAI-scheduler/pkg/scheduler/framework"
 
 	"verif/mc/schedrun"
+	"verif/mc/sessioncheck"
 	"verif/mc/world"
 )
+
+type obs struct {
+	n  int
+	tr *sessioncheck.Tracker
+}
+
+func (o *obs) chk(ssn *framework.Session, where string) {
+	ps := sessioncheck.Accounting(ssn, where, o.tr)
+	if len(ps) > 0 && o.n < 3 {
+		o.n++
+		for _, p := range ps {
+			fmt.Println("PROBLEM", p.Key, p.Msg)
+		}
+		fmt.Println(sessioncheck.Dump(ssn))
+	}
+}
+func (o *obs) SessionOpened(ssn *framework.Session) {
+	o.chk(ssn, "open")
+	ssn.AddEventHandler(&framework.EventHandler{
+		AllocateFunc: func(e *framework.Event) {
+			o.tr.OnAllocate(e.Task)
+			j := ssn.ClusterInfo.PodGroupInfos[e.Task.Job]
+			fmt.Println("EVENT alloc", e.Task.Name, e.Task.Status, e.Task.NodeName, e.Task.GPUGroups, "virtual=", e.Task.IsVirtualStatus, "jobActive=", j.GetActiveAllocatedTasksCount())
+			o.chk(ssn, "alloc")
+		},
+		DeallocateFunc: func(e *framework.Event) {
+			o.tr.OnDeallocate(e.Task)
+			j := ssn.ClusterInfo.PodGroupInfos[e.Task.Job]
+			fmt.Println("EVENT dealloc", e.Task.Name, e.Task.Status, e.Task.NodeName, e.Task.GPUGroups, "virtual=", e.Task.IsVirtualStatus, "jobActive=", j.GetActiveAllocatedTasksCount())
+			if os.Getenv("STACK") != "" {
+				debug.PrintStack()
+			}
+			o.chk(ssn, "dealloc")
+		},
+	})
+}
+func (o *obs) AfterAction(name string, ssn *framework.Session, ds []schedrun.Decision) {
+	fmt.Println("AFTER", name, len(ds))
+	o.chk(ssn, "after-"+name)
+}
 
 // smoke <replay.json>: runs one default cycle on the replay's world and prints decisions / panic.
 func main() {
@@ -29,7 +73,7 @@ func main() {
 	if err != nil {
 		panic(err)
 	}
-	res, err := schedrun.RunCycle(w, schedrun.Config{}, nil)
+	res, err := schedrun.RunCycle(w, schedrun.Config{}, &obs{tr: sessioncheck.NewTracker()})
 	fmt.Println("err:", err)
 	if res != nil {
 		fmt.Println("openErr:", res.OpenErr)
